@@ -555,11 +555,19 @@ class PythonTypesBackend(CodeBackend):
         class_name = class_name_for_data_type(data_type)
         for field in data_type.fields:
             if field.has_default:
+                default = field.default
+                field_dt, _ = unwrap_aliases(field.data_type)
+                # Spec literals are strings; the attribute holds the Python
+                # type that the field's validator accepts.
+                if is_bytes_type(field_dt) and isinstance(default, str):
+                    default = default.encode('utf-8')
+                elif is_timestamp_type(field_dt) and isinstance(default, str):
+                    default = datetime.datetime.strptime(default, field_dt.format)
                 self.emit(
                     "{}.{}.default = {}".format(
                         class_name,
                         fmt_var(field.name),
-                        self._generate_python_value(ns, field.default))
+                        self._generate_python_value(ns, default))
                 )
 
     def _generate_struct_class_init(self, data_type):
